@@ -26,6 +26,11 @@ type SyncSender struct {
 	logger   *logger.Logger
 	active   atomic.Bool
 	mu       sync.RWMutex
+	// orderMu makes "take the next sequence number, push to the backlog,
+	// enqueue for sending" one step: the event bus runs every handler call in
+	// its own goroutine, and the backlog (Range indexes by sequence number)
+	// and the stream both rely on sequence order.
+	orderMu sync.Mutex
 }
 
 type syncCounters struct {
@@ -97,13 +102,16 @@ func (s *SyncSender) HandleEvent(ev events.Event) {
 		ctr.updates.Add(1)
 	}
 
-	seq := seqCounter.Add(1)
+	cp := sessionToCheckpoint(sess)
+
+	s.orderMu.Lock()
+	defer s.orderMu.Unlock()
 
 	req := &hapb.SyncSessionRequest{
 		SrgName:  srgName,
-		Sequence: seq,
+		Sequence: seqCounter.Add(1),
 		Action:   action,
-		Session:  sessionToCheckpoint(sess),
+		Session:  cp,
 	}
 
 	backlog.Push(req)
@@ -194,12 +202,16 @@ func (s *SyncSender) HandleMutationResult(ev events.Event) {
 		return
 	}
 
-	seq := seqCounter.Add(1)
+	cp := sessionToCheckpoint(data.Session)
+
+	s.orderMu.Lock()
+	defer s.orderMu.Unlock()
+
 	req := &hapb.SyncSessionRequest{
 		SrgName:  srgName,
-		Sequence: seq,
+		Sequence: seqCounter.Add(1),
 		Action:   hapb.SyncAction_SYNC_ACTION_UPDATE,
-		Session:  sessionToCheckpoint(data.Session),
+		Session:  cp,
 	}
 
 	backlog.Push(req)
